@@ -1228,6 +1228,27 @@ def _register_required_structure_hooks(
         else:
             return converter.structure(object_, lsp_types.NotebookDocumentFilterPattern)
 
+    def _optional_notebook_filter_hook(
+        object_: Any, type_: type
+    ) -> Optional[
+        Union[
+            str,
+            lsp_types.NotebookDocumentFilterNotebookType,
+            lsp_types.NotebookDocumentFilterScheme,
+            lsp_types.NotebookDocumentFilterPattern,
+        ]
+    ]:
+        if object_ is None:
+            return None
+        return _notebook_filter_hook(object_, type_)
+
+    def _string_or_strings_hook(
+        object_: Any, _: type
+    ) -> Optional[Union[str, Sequence[str]]]:
+        if object_ is None or isinstance(object_, str):
+            return object_
+        return [converter.structure(item, str) for item in object_]
+
     NotebookSelectorItem = attrs.fields(
         lsp_types.NotebookCellTextDocumentFilter
     ).notebook.type
@@ -1258,6 +1279,8 @@ def _register_required_structure_hooks(
             _notebook_filter_hook,
         ),
         (NotebookSelectorItem, _notebook_filter_hook),
+        (Optional[NotebookSelectorItem], _optional_notebook_filter_hook),
+        (Optional[Union[str, Sequence[str]]], _string_or_strings_hook),
         (
             Union[lsp_types.LSPObject, Sequence["LSPAny"], str, int, float, bool, None],
             _lsp_object_hook,
